@@ -804,12 +804,16 @@ def check_charges_and_dipole(ctx, rid):
             mol = types.SimpleNamespace(dm=dm, method=method, const=types.SimpleNamespace(tore=tore), species=species, q=None)
             selfns = types.SimpleNamespace(atomic_charges=FuncRef(es, es.func("Electronic_Structure.atomic_charges")))
             fr = _Frame(I, es, {"molecule": mol, "self": selfns})
-            for st in blk[:i0]:
-                if isinstance(st, ast.Assign) and all(isinstance(t, ast.Name) for t in st.targets):
-                    try:
-                        fr.stmt(st)
-                    except AnalysisError:
-                        pass
+            # backward slice inside the block: earlier statements that define the locals the charge statements read (transitively)
+            need = {n.id for st in blk[i0:i1 + 1] for n in ast.walk(st) if isinstance(n, ast.Name) and isinstance(n.ctx, ast.Load)} - {"molecule", "self", "torch"}
+            pre = []
+            for st in reversed(blk[:i0]):
+                stored_ = {n.id for n in ast.walk(st) if isinstance(n, ast.Name) and isinstance(n.ctx, ast.Store)}
+                inplace = {n.func.value.id for n in ast.walk(st) if isinstance(n, ast.Call) and isinstance(n.func, ast.Attribute) and isinstance(n.func.value, ast.Name) and n.func.attr.endswith("_")}
+                if (stored_ | inplace) & need and not any(isinstance(c, ast.Call) and norm(c.func).startswith("self.") and not norm(c.func).endswith("atomic_charges") for c in ast.walk(st)):
+                    pre.insert(0, st)
+                    need |= {n.id for n in ast.walk(st) if isinstance(n, ast.Name) and isinstance(n.ctx, ast.Load)} - {"molecule", "self", "torch"}
+            fr.block(pre)
             fr.block(blk[i0:i1 + 1])
             q = mol.q
             ok = getattr(q, "shape", None) == (2, 3)
@@ -1040,6 +1044,41 @@ def interpreted_parser_guards(repo):
            [("H2 2+, RHF", A([H2], [2])), ("H2 triplet, UHF", A([H2], [0], mult=[3], uhf=True))], "charge/multiplicity pair that needs a negative number of occupied orbitals")
     decide("occupation-exceeds-basis", [("H2 with charge -4, RHF", A([H2], [-4])), ("H2 quintet, UHF", A([H2], [0], mult=[5], uhf=True)), ("batch [CH2O, H2 4-]", A([CH2O, H2], [0, -4]))],
            [("H2 2-, RHF", A([H2], [-2])), ("H2 triplet, UHF", A([H2], [0], mult=[3], uhf=True))], "charge/multiplicity pair that needs more occupied orbitals than the valence basis has")
+    # exhaustive acceptance table on a finite domain: H2 (2 electrons, 2 orbitals) and CH4 (8 electrons, 8 orbitals), total charge -4..4, multiplicity 1..9, restricted
+    # (multiplicity ignored) and unrestricted: a request is valid iff every spin channel gets an integer number of electrons within [0, number of orbitals]
+    CH4 = [6, 1, 1, 1, 1]
+    table_bad = None
+    n_tab = 0
+
+    def run_small(species, charge, mult, uhf):
+        species = np.array([species], dtype=np.int64)
+        mol = types.SimpleNamespace(species=species, coordinates=np.array([[[sp.Integer(p), sp.Integer(p * p), sp.Integer(0)] for p in range(species.shape[1])]], dtype=object),
+                                    const=types.SimpleNamespace(tore=tore, length_conversion_factor=sp.Rational(189, 100)), tot_charge=np.array([charge], dtype=np.int64),
+                                    mult=np.array([mult], dtype=np.int64))
+        selfns = types.SimpleNamespace(outercutoff=sp.Integer(10) ** 10, uhf=uhf, hipnn_automatic_doublet=False, elements=None)
+        try:
+            NpSym(repo).call_function(bs, f, [selfns, mol, "AM1"], {"do_large_tensors": False})
+            return False
+        except Raised:
+            return True
+    for species, nel, norb in ((H2[:2], 2, 2), (CH4, 8, 8)):
+        for charge in range(-4, 5):
+            n_e = nel - charge
+            for uhf in (False, True):
+                for mult in (range(1, 10) if uhf else (1,)):
+                    if uhf:
+                        a2, b2 = n_e + (mult - 1), n_e - (mult - 1)
+                        valid = a2 % 2 == 0 and 0 <= a2 // 2 <= norb and 0 <= b2 // 2 <= norb and b2 >= 0
+                    else:
+                        valid = n_e % 2 == 0 and 0 <= n_e // 2 <= norb
+                    raised = run_small(species, charge, mult, uhf)
+                    n_tab += 1
+                    if raised == valid and table_bad is None:
+                        table_bad = (f"{'CH4' if len(species) == 5 else 'H2'} with charge {charge:+d}, multiplicity {mult}, {'UHF' if uhf else 'RHF'} "
+                                     f"({n_e} electrons, {norb} orbitals) is {'rejected although valid' if raised else 'ACCEPTED although it needs a spin channel outside [0, number of orbitals] or a fractional occupation'}")
+    if table_bad is not None:
+        for rid_ in ("negative-occupation", "occupation-exceeds-basis"):
+            out[rid_] = (False, f"charge / multiplicity acceptance table ({n_tab} interpreted requests): {table_bad}")
     return out
 
 
